@@ -71,11 +71,13 @@ package defs
 //@   requires i != nil && 0 <= *i && *i <= len(src)
 //@   modifies *i
 //@   ensures c13_tok: err == nil && len(tok) > 0 ==> old(*i) <= tok.ptr - src.ptr && tok.ptr + len(tok) == src.ptr + *i && *i <= len(src)
-//@   ensures c13_eof: err == nil && len(tok) == 0 ==> eofok && *i == old(*i)
+//@   ensures c13_eof: err == nil && len(tok) == 0 ==> eofok && *i == old(*i) && (forall a Int :: {M[a]} src.ptr + old(*i) <= a && a < src.ptr + len(src) ==> isSpaceRune(M[a]))
 //@   ensures c13_noeof: !eofok && err == nil ==> len(tok) > 0
+//@   ensures c13_eofok: eofok ==> err == nil
 //@   ensures err != nil ==> *i == old(*i)
 //@   ensures 0 <= *i && *i <= len(src)
 //@   loop 0 invariant old(*i) <= p && p <= n && n == len(src)
+//@   loop 0 invariant c13_spaces: forall a Int :: {M[a]} src.ptr + old(*i) <= a && a < src.ptr + p ==> isSpaceRune(M[a])
 //@   loop 1 invariant q < p && p <= n && n == len(src) && old(*i) <= q
 
 // error constructors (errors.go)
@@ -158,7 +160,7 @@ package defs
 //@   after readToken#0 ghost $ptok = res_tok
 //@   ensures 0 <= *i && *i <= len(def) && old($brk) <= $brk
 //@   ensures c12_node: err == nil ==> dtOK(t, vt) && old($brk) <= t
-//@   ensures c12_enum: err == nil && t.T == T_enum ==> len(def) > 0 && !kwMatch(keywordTab[T_i64], $ptok) && vt != i64type
+//@   ensures c12_enum: err == nil && t.T == T_enum ==> len(def) > 0 && !(exists j Int :: 0 <= j && j < splitN2(keywordTab[T_i64], " ") && streq(splitPart2(keywordTab[T_i64], " ", j), $ptok)) && vt != i64type
 //@   ensures c13_nested: err == nil && !allowPtrs ==> t.T != T_pointer
 //@   ensures err != nil ==> t == nil
 
@@ -173,9 +175,20 @@ package defs
 //@   ensures old($brk) <= $brk
 
 // ParseType, what is proved of its code (callers use the assumed contract with wfDT)
+// isKeyword: tv is, as a whole, one of the space-separated keywords of the tag (not a substring of them)
+//@ func isKeyword(tag Tag, tv string) (b bool)
+//@   modifies $brk
+//@   ensures c13_keyword: b <==> (exists j Int :: 0 <= j && j < splitN2(keywordTab[tag], " ") && streq(splitPart2(keywordTab[tag], " ", j), tv))
+//@   ensures old($brk) <= $brk
+//@   loop 0 invariant forall j Int :: {splitPart2(keywordTab[tag], " ", j)} 0 <= j && j <= rangeindex ==> !streq(splitPart2(keywordTab[tag], " ", j), tv)
+
+// ParseType: the annotation is the type and nothing else: only spaces may follow it ($pend: where the type ended)
+//@ const ghost $pend = Int
 //@ func ParseType(vt reflect.Type, def string) (t *Type, err error)
 //@   requires vt != nil
-//@   modifies $brk
+//@   modifies $brk, $pend
+//@   after doParseType ghost $pend = i
+//@   ensures c13_trailing: err == nil ==> 0 <= $pend && $pend <= len(def) && (forall a Int :: {M[a]} def.ptr + $pend <= a && a < def.ptr + len(def) ==> isSpaceRune(M[a]))
 //@   ensures c12_node: err == nil ==> dtOK(t, vt)
 //@   ensures err != nil ==> t == nil
 //@   ensures old($brk) <= $brk
